@@ -110,8 +110,9 @@ type hostCall struct {
 
 // runOpts are the per-program runtime settings.
 type runOpts struct {
-	Limit int // Stack.MaxTailIterations for this run (0: the default)
-	Host  []hostCall
+	Limit   int // Stack.MaxTailIterations for this run (0: the default)
+	MaxPhys int // Stack.MaxHeightPhysical for this run (0: the default)
+	Host    []hostCall
 }
 
 func execute(p *pool, src string, ro runOpts, cfg string) (o obs) {
@@ -134,8 +135,12 @@ func execute(p *pool, src string, ro runOpts, cfg string) (o obs) {
 	if ro.Limit > 0 {
 		env.Runtime.Stack.MaxTailIterations = ro.Limit
 	}
+	if ro.MaxPhys > 0 {
+		env.Runtime.Stack.MaxHeightPhysical = ro.MaxPhys
+	}
 	defer func() {
 		env.Runtime.Stack.MaxTailIterations = lisp.DefaultMaxTailIterations
+		env.Runtime.Stack.MaxHeightPhysical = lisp.DefaultMaxPhysicalStackHeight
 		if r := recover(); r != nil {
 			o.GoPanic = fmt.Sprint(r)
 			o.Out = el.Outcome{IsErr: true, Cond: "<go-panic-escaped>", Text: o.GoPanic, Out: env.Err.String()}
